@@ -747,8 +747,20 @@ func (w *Writer) OpenStream(ref Reference, dict Dict, filters ...Filter) (io.Wri
 		}
 		leadingCrypt = cf
 	}
+	// The same holds for a Crypt filter declared by dict: without this
+	// check, the data would be stored unencrypted in a stream which claims
+	// to be encrypted.
+	declaredCrypt, err := declaredCryptFilter(w, dict)
+	if err != nil {
+		return nil, err
+	}
+	if declaredCrypt != nil {
+		if _, ok := declaredCrypt.(FilterCryptIdentity); !ok {
+			return nil, fmt.Errorf("OpenStream: %T encoding is not yet supported", declaredCrypt)
+		}
+	}
 
-	err := w.setXRef(ref, &xRefEntry{Pos: w.w.pos, Generation: ref.Generation()})
+	err = w.setXRef(ref, &xRefEntry{Pos: w.w.pos, Generation: ref.Generation()})
 	if err != nil {
 		return nil, fmt.Errorf("Writer.OpenStream: %w", err)
 	}
@@ -803,14 +815,7 @@ func (w *Writer) OpenStream(ref Reference, dict Dict, filters ...Filter) (io.Wri
 	//     dict["Filter"] (e.g. for a copied stream being written through
 	//     Writer.Put).  Per PDF spec §7.4.10 the explicit Crypt filter
 	//     overrides the default StmF.
-	skipDefaultEncrypt := w.refIsPlaintext[ref] || leadingCrypt != nil
-	if !skipDefaultEncrypt {
-		startsWithCrypt, err := filterChainStartsWithCrypt(w, streamDict["Filter"])
-		if err != nil {
-			return nil, err
-		}
-		skipDefaultEncrypt = startsWithCrypt
-	}
+	skipDefaultEncrypt := w.refIsPlaintext[ref] || leadingCrypt != nil || declaredCrypt != nil
 	if w.w.enc != nil && !skipDefaultEncrypt {
 		enc, err := w.w.enc.EncryptStream(ref, streamBody)
 		if err != nil {
@@ -861,6 +866,31 @@ func (w *Writer) OpenStream(ref Reference, dict Dict, filters ...Filter) (io.Wri
 
 	w.inStream = true
 	return streamBody, nil
+}
+
+// declaredCryptFilter returns the Crypt filter which the /Filter and
+// /DecodeParms entries of a stream dictionary declare at position 0 of the
+// filter chain, or nil if the chain does not start with a Crypt filter.
+func declaredCryptFilter(r Getter, dict Dict) (CryptFilter, error) {
+	startsWithCrypt, err := filterChainStartsWithCrypt(r, dict["Filter"])
+	if err != nil || !startsWithCrypt {
+		return nil, err
+	}
+	parms, err := Resolve(r, dict["DecodeParms"])
+	if err != nil {
+		return nil, err
+	}
+	if a, isArray := parms.(Array); isArray {
+		parms = nil
+		if len(a) > 0 {
+			parms, err = Resolve(r, a[0])
+			if err != nil {
+				return nil, err
+			}
+		}
+	}
+	param, _ := parms.(Dict)
+	return parseCrypt(param)
 }
 
 type streamWriter struct {
